@@ -34,8 +34,10 @@ pub fn gen_case(t: &mut Tape, feature_unimock: bool) -> Case {
     let is_async = t.chance(1, 3);
     let borrowed_ret = t.chance(1, 3);
     let mut params = prog::gen_params(t, 3, false, false);
+    // the fn may have a generic parameter of its own next to the concrete dependency
+    let allow_gen = t.chance(1, 3);
     for p in params.iter_mut() {
-        if matches!(p.vt, VT::Gen | VT::MutVec) {
+        if p.vt == VT::MutVec || (p.vt == VT::Gen && !allow_gen) {
             p.vt = VT::I32;
         }
         if borrowed_ret && p.vt == VT::Str {
@@ -43,7 +45,17 @@ pub fn gen_case(t: &mut Tape, feature_unimock: bool) -> Case {
             p.vt = VT::String;
         }
     }
-    let lt_decl = if named_lt { "<'d>" } else { "" };
+    let has_gen = params.iter().any(|p| p.vt == VT::Gen);
+    let gen_bound = if is_async { "T: ::core::fmt::Debug + Send + Sync" } else { "T: ::core::fmt::Debug" };
+    let lt_decl = match (named_lt, has_gen) {
+        (true, true) => format!("<'d, {gen_bound}>"),
+        (true, false) => "<'d>".to_string(),
+        (false, true) => format!("<{gen_bound}>"),
+        (false, false) => String::new(),
+    };
+    let targ = if has_gen { "<i64>" } else { "" };
+    let tparam = if has_gen { format!("<{gen_bound}>") } else { String::new() };
+    let tuse = if has_gen { "<T>" } else { "" };
     let dty = if named_lt { format!("&'d {ty}") } else { format!("&{ty}") };
     let ret = if borrowed_ret { if named_lt { "&'d str" } else { "&str" } } else { "String" };
     let mut ps = vec![format!("deps: {dty}")];
@@ -88,10 +100,11 @@ pub fn gen_case(t: &mut Tape, feature_unimock: bool) -> Case {
     let hand_ps: String = params.iter().map(|p| format!(", {}: {}", p.name, p.vt.ty("T"))).collect();
     let hand_ret = if borrowed_ret { "&str" } else { "String" };
     src.push_str(&format!(
-        "/*GEN*/ impl TheTrait for App {{ {q}fn the_fn(&self{hand_ps}) -> {hand_ret} {{ self.c.the_fn({hand_args}){} }} }}\n",
+        "/*GEN*/ impl{tparam} TheTrait{tuse} for App {{ {q}fn the_fn(&self{hand_ps}) -> {hand_ret} {{ self.c.the_fn({hand_args}){} }} }}\n",
         if is_async { ".await" } else { "" }
     ));
-    src.push_str("struct Probe<T>(PhantomData<T>);\ntrait Fallback { fn has(&self) -> bool { false } }\nimpl<T> Fallback for Probe<T> {}\n/*GEN*/ impl<T: TheTrait> Probe<T> { fn has(&self) -> bool { true } }\n");
+    src.push_str("struct Probe<T>(PhantomData<T>);\ntrait Fallback { fn has(&self) -> bool { false } }\nimpl<T> Fallback for Probe<T> {}\n");
+    src.push_str(&format!("/*GEN*/ impl<X: TheTrait{targ}> Probe<X> {{ fn has(&self) -> bool {{ true }} }}\n"));
     src.push_str("pub fn run() -> Vec<String> {\n    let mut fails: Vec<String> = vec![];\n");
     let call_args: String = params.iter().enumerate().map(|(i, p)| p.vt.expr(i)).collect::<Vec<_>>().join(", ");
     let comma = if call_args.is_empty() { "" } else { ", " };
